@@ -44,6 +44,8 @@ def build_source(t):
     d = A.Decls()
     T = d.vy(t)
     n = A.size_bound(("tuple", (t,))) + 96
+    has_len = t[0] in ("bytes", "string", "darr")
+    LN = f"@external\ndef ln(x: {T}) -> uint256:\n    return len(x)\n" if has_len else ""
     src = d.text() + f"""
 interface Ret:
     def get() -> {T}: view
@@ -67,6 +69,7 @@ def echo_mem(x: {T}) -> {T}:
     y: {T} = x
     return y
 
+{LN}
 @external
 def dec(b: Bytes[{n}]) -> {T}:
     return abi_decode(b, {T})
@@ -118,6 +121,8 @@ def run_job(job):
                     if (r.ok, r.out) != (r2.ok, r2.out):
                         obs.append(("split", r.out.hex() + "/" + r2.out.hex()))
                         continue
+                elif kind == "len":
+                    r = ch.call(main, mids["ln"] + data)
                 elif kind == "mem":
                     r = ch.call(main, mids["dec"] + enc_bytes_arg(data))
                 elif kind == "ctor":
